@@ -35,7 +35,8 @@ package message
 //@   ensures[expected_cid_enforced] err == nil && res("call:Defined#0", 0) ==> blockCid(result0) == c
 
 // representation invariant of a message under construction
-//@ macro wfMsg(m) = m != nil && m.wantlist != nil && m.blocks != nil && m.blockPresences != nil && m.blocks != m.blockPresences && m.wantlist != m.blockPresences && all(k cid.Cid, has(m.wantlist, k) ==> m.wantlist[k] != nil)
+//@ macro wfMaps(m) = m != nil && m.wantlist != nil && m.blocks != nil && m.blockPresences != nil && m.blocks != m.blockPresences && m.wantlist != m.blockPresences
+//@ macro wfMsg(m) = wfMaps(m) && all(k cid.Cid, has(m.wantlist, k) ==> m.wantlist[k] != nil)
 //@ macro sameMaps(m) = m.wantlist == old(m.wantlist) && m.blocks == old(m.blocks) && m.blockPresences == old(m.blockPresences)
 
 // every block a parsed message holds went through NewWantlistBlock (payload) or NewBlock (legacy):
@@ -43,14 +44,14 @@ package message
 //@ func (*impl).AddBlock
 //@   prop C34
 //@   arith int
-//@   requires[wf] wfMsg(m)
+//@   requires[wf] wfMaps(m)
 //@   modifies mapof(m.blocks), mapof(m.blockPresences)
 //@   ensures[stored_under_its_own_cid] has(m.blocks, blockCid(b)) && m.blocks[blockCid(b)] == b
 //@   ensures[a_block_replaces_its_presence] !has(m.blockPresences, blockCid(b))
 //@ func (*impl).AddBlockPresence
 //@   prop C34
 //@   arith int
-//@   requires[wf] wfMsg(m)
+//@   requires[wf] wfMaps(m)
 //@   modifies mapof(m.blockPresences)
 //@   ensures[no_presence_for_a_held_block] has(m.blocks, c) ==> has(m.blockPresences, c) == old(has(m.blockPresences, c))
 //@   ensures[recorded_otherwise] !has(m.blocks, c) ==> has(m.blockPresences, c) && m.blockPresences[c] == t
